@@ -324,3 +324,74 @@ def is_data_src(src: str) -> bool:
     """call-site source text of an argument that hands the (normalised) data matrix to a driver"""
     s = src.strip()
     return s == "X" or s.endswith(".values") or s.endswith(".to_numpy()") or (s.startswith(("np.asarray(", "np.array(")) and "X" in s)
+
+
+# ----------------------------------------------------------------------------- jit neutrality
+
+JIT_DECORATORS = ("skchange.utils.numba.soft_import.njit", "skchange.utils.numba.soft_import.jit", "skchange.utils.numba.njit", "skchange.utils.numba.jit", "numba.njit", "numba.jit")
+#: options under which a compiled kernel no longer has the Python semantics the engine interprets
+JIT_UNSAFE = {
+    "fastmath": "fastmath lets LLVM assume no NaN/inf and reassociate: np.isnan guards (non-positive-definite covariance) may be folded away",
+    "error_model": "error_model='numpy' turns ZeroDivisionError into inf/nan",
+    "parallel": "parallel=True runs prange iterations concurrently and reorders reductions",
+    "boundscheck": "boundscheck changes which out-of-range accesses raise",
+}
+
+
+def _const_false(e):
+    import ast as _a
+
+    return isinstance(e, _a.Constant) and e.value in (False, None)
+
+
+def check_jit_neutral(ctx, rule):
+    """Every jit decoration in the program is the soft-import decorator without semantics-changing options, and the
+    soft import's own defaults for fastmath/parallel are False.  This is the assumption under which the engine may read
+    kernels as plain Python; it is checked, not assumed."""
+    import ast as _a
+
+    P = ctx.P
+    n = 0
+    for fq, f in sorted(P.functions.items()):
+        for d in f.node.decorator_list:
+            call = d if isinstance(d, _a.Call) else None
+            tgt = P.resolve_expr(f.module, call.func if call else d)
+            name = tgt[1] if isinstance(tgt, tuple) and tgt[0] in ("external", "module") else getattr(tgt, "qualname", None)
+            if name is None and isinstance(call.func if call else d, (_a.Name, _a.Attribute)):
+                src = _a.unparse(call.func if call else d)
+                if src.split(".")[-1] in ("njit", "jit"):
+                    name = src
+            if name is None or name.split(".")[-1] not in ("njit", "jit"):
+                continue
+            n += 1
+            if not (name in JIT_DECORATORS or name.startswith("skchange.utils.numba")):
+                ctx.violation(rule, f"{f.qualname}|decorator", f.loc(d), f"kernel compiled with {name} instead of the library's soft-import decorator (its defaults and the no-numba fallback do not apply)", found=_a.unparse(d))
+                continue
+            bad = []
+            for kw in (call.keywords if call else []):
+                if kw.arg in JIT_UNSAFE and not _const_false(kw.value):
+                    bad.append(kw)
+                if kw.arg is None:
+                    bad.append(kw)
+            for kw in bad:
+                ctx.violation(rule, f"{f.qualname}|{kw.arg or '**'}", f.loc(d), f"kernel decorated with {_a.unparse(kw)}: {JIT_UNSAFE.get(kw.arg, 'unknown options')}", found=_a.unparse(d), expected="@njit without semantics-changing options")
+            if not bad:
+                ctx.holds(rule, f"{f.qualname}|options", f.loc(d), "jit decoration without semantics-changing options", nontrivial=False)
+    # defaults of the soft import
+    m = P.modules.get("skchange.utils.numba.soft_import")
+    n_def = 0
+    if m is not None:
+        for node in _a.walk(m.tree):
+            if isinstance(node, _a.Dict):
+                for k, v in zip(node.keys, node.values):
+                    if isinstance(k, _a.Constant) and k.value in ("fastmath", "parallel"):
+                        n_def += 1
+                        ok = False
+                        if isinstance(v, _a.Call) and _a.unparse(v.func).endswith("read_boolean_env_var"):
+                            dv = [kw.value for kw in v.keywords if kw.arg == "default_value"] + list(v.args[1:2])
+                            ok = bool(dv) and _const_false(dv[0])
+                        elif _const_false(v):
+                            ok = True
+                        ctx.check(ok, rule, f"soft_import|default-{k.value}@{node.lineno}", f"{m.relpath}:{v.lineno}", f"default {k.value} = {_a.unparse(v)[:70]}", expected=f"{k.value} defaults to False (opt-in through the environment only)")
+    ctx.expect_min(rule + " (decorated kernels)", n, 20)
+    ctx.expect_min(rule + " (soft-import defaults)", n_def, 4)
